@@ -370,11 +370,14 @@ def ruleLatentDOW(ts: datetime, dow: Time) -> Time:
 
 
 @rule(predicate("isDOY"))
-def ruleLatentDOY(ts: datetime, doy: Time) -> Time:
-    dm = ts + relativedelta(month=doy.month, day=doy.day)
-    if dm < ts:
-        dm += relativedelta(years=1)
-    return Time(year=dm.year, month=dm.month, day=dm.day)
+def ruleLatentDOY(ts: datetime, doy: Time) -> Optional[Time]:
+    # relativedelta clips the day to the month length (29.2. -> 28.2. in
+    # non-leap years): look for the next year that has this day
+    for years in range(0, 9):
+        dm = ts + relativedelta(years=years) + relativedelta(month=doy.month, day=doy.day)
+        if dm.day == doy.day and dm >= ts:
+            return Time(year=dm.year, month=dm.month, day=dm.day)
+    return None
 
 
 @rule(predicate("isPOD"))
